@@ -80,12 +80,13 @@ type evalCtx struct {
 }
 
 type c11run struct {
-	res        *fw.Result
-	r          *fw.Rand
-	ctxs       []evalCtx
-	tops       []string
-	nontrivial int
-	sampleExpr map[string]any
+	res          *fw.Result
+	r            *fw.Rand
+	ctxs         []evalCtx
+	tops         []string
+	topsAnyOrder []string
+	nontrivial   int
+	sampleExpr   map[string]any
 }
 
 type failure struct {
@@ -111,6 +112,9 @@ func (p *c11) Run(c fw.Case) fw.Result {
 		k.ctxs = append(k.ctxs, evalCtx{gen.Env(cr), buildContext(cr)})
 	}
 	k.tops = k.ctxs[0].ctx.Properties()
+	// the caller of refactor.Template names the allowed top-levels in whatever order it likes
+	k.topsAnyOrder = append([]string{}, k.tops...)
+	fw.Shuffle(k.r, k.topsAnyOrder)
 
 	var exprs, tpls []string
 	if c.Directed != "" {
@@ -622,7 +626,7 @@ func (k *c11run) tplIdentity(tpl string, reprint bool, count bool) *failure {
 	if reprint {
 		name = "clause.identity_reprinted"
 	}
-	out, _, pn := safeRefactor(tpl, k.tops, func(excellent.Expression) bool { return reprint })
+	out, _, pn := safeRefactor(tpl, k.topsAnyOrder, func(excellent.Expression) bool { return reprint })
 	if pn != nil {
 		return &failure{kind: "refactor-panic", what: "refactor.Template panicked: " + pn.String(), wit: map[string]any{"template": tpl, "panic": pn.String(), "stack": fw.TrimStack(pn.stack)}}
 	}
@@ -749,7 +753,7 @@ func renamedContext(ctx *types.XObject, from, to string, dropFrom bool) *types.X
 // tplRename: ContextRefRename(a -> b.c) must give a template whose value in ctx[b.c := ctx[a]] is
 // the original value in ctx, and must leave all other context references alone.
 func (k *c11run) tplRename(tpl, from, to string, count bool) *failure {
-	out, _, pn := safeRefactor(tpl, k.tops, refactor.ContextRefRename(from, to))
+	out, _, pn := safeRefactor(tpl, k.topsAnyOrder, refactor.ContextRefRename(from, to))
 	if pn != nil {
 		return &failure{kind: "refactor-panic", what: "refactor.Template(ContextRefRename) panicked: " + pn.String(), wit: map[string]any{"template": tpl, "panic": pn.String(), "stack": fw.TrimStack(pn.stack)}}
 	}
